@@ -314,6 +314,34 @@ def main():
     ck.add_group("mutated_definitions", len(cases), min(accepted, len(cases) - accepted) * 2, descs[:2], accepted_by_validator=accepted,
                  illegal_at_run_time=sum(1 for d in descs if d["illegal_at_run_time"]), mutations=sorted(set(k.replace("rich:", "").split("+")[0].split(":")[0] for _, k in defs)))
 
+    # 2b. what one definition looks like must not matter to another: the same nested state name at different places of two definitions run by one engine
+    pair_runs = 0
+    V = {"Type": "Pass", "End": True}
+    pairs = [({"StartAt": "In", "States": {"In": {"Type": "Parallel", "End": True, "Branches": [{"StartAt": "Validate", "States": {"Validate": V}}]}}},
+              {"StartAt": "Rep", "States": {"Rep": {"Type": "Map", "ItemsPath": "$.items", "End": True, "Iterator": {"StartAt": "Validate", "States": {"Validate": V}}}}}),
+             ({"StartAt": "A", "States": {"A": {"Type": "Pass", "Next": "In"}, "In": {"Type": "Parallel", "End": True, "Branches": [{"StartAt": "X", "States": {"X": V}}, {"StartAt": "Y", "States": {"Y": V}}]}}},
+              {"StartAt": "In", "States": {"In": {"Type": "Parallel", "End": True, "Branches": [{"StartAt": "Y", "States": {"Y": {"Type": "Pass", "Next": "X"}, "X": V}}]}}})]
+    for first, second in pairs + [(b, a) for a, b in pairs]:
+        w = sim.World(tmpd)
+        w.register(cp.ARN, first)
+        for inst in w.instances.values():
+            inst.engine.asl_store[ARN2] = {"creationDate": 0, "definition": second, "name": "camp2", "roleArn": sim.impl.ROLE, "stateMachineArn": ARN2, "updateDate": 0, "status": "ACTIVE", "type": "STANDARD"}
+        w.start_execution(cp.ARN, json.loads(json.dumps(RICH_INPUT)), name="one")
+        st1 = w.run(max_steps=600)
+        w.start_execution(ARN2, json.loads(json.dumps(RICH_INPUT)), name="two")
+        st2 = w.run(max_steps=600)
+        ends = {}
+        for t in w.trace:
+            if t[0] == "broadcast" and t[3]["detail"]["status"] != "RUNNING":
+                ends.setdefault(t[3]["detail"]["name"], []).append((t[3]["detail"]["status"], (t[3]["detail"].get("cause") or "")[-120:]))
+        pair_runs += 1
+        accepted_both = not lint.validate(copy.deepcopy(first)) and not lint.validate(copy.deepcopy(second))
+        if accepted_both and (ends.get("one", [("?", "")])[-1][0] != "SUCCEEDED" or ends.get("two", [("?", "")])[-1][0] != "SUCCEEDED" or st1 != "quiescent" or st2 != "quiescent"):
+            d = {"first_definition": first, "second_definition": second, "ends": ends}
+            ck.violation("two definitions the validator accepts, run one after the other by the same engine: one of them failed (a nested state of the same name sits elsewhere in the other): %s"
+                         % json.dumps(d)[:1200], {"case": d})
+    ck.add_group("definitions_side_by_side", pair_runs, pair_runs, [])
+
     # 3. poison events on the queues
     poison = [b"not json", b"\xff\xfe", b"", b"null", b"5", b'"text"', b"[1, 2]", b"{}", b'{"data": 1}', b'{"context": 5}', b'{"context": {}}', b'{"context": {"StateMachine": {}}}',
               b'{"context": {"StateMachine": {"Id": "arn:aws:states:local:0123456789:stateMachine:nope"}}}', b'{"context": {"StateMachine": {"Id": 7}}}',
